@@ -214,8 +214,9 @@ package domain
 //@   loop 0 invariant forall j int :: start <= j && j < i ==> encodedAt(b, (j-start)*26, ptrs[j])
 
 //@ func (f *pointerCodec) decode(b []byte) (ptrs []pointer)
+//@   pragma wraps uint64->int64 reinterpretation of the stored timestamps
 //@   ensures  len(ptrs) == len(b)/26
-//@   ensures  forall i int :: 0 <= i && i < len(ptrs) ==> encodedAt(b, i*26, ptrs[i]) && ptrs[i].Start >= 0 == (ptrs[i].Start >= 0)
+//@   ensures  forall i int :: 0 <= i && i < len(ptrs) ==> encodedAt(b, i*26, ptrs[i])
 //@   modifies nothing
 //@   loop 0 invariant len(pointers) == len(b)/26
 //@   loop 0 invariant forall j int :: 0 <= j && j < __ri(0) ==> encodedAt(b, j*26, pointers[j])
